@@ -860,6 +860,21 @@ impl<'a> TypeMono<'a> {
         }
     }
 
+    // The name of a new instance. A type of the program may already be called like it
+    // (`struct Box__int32` next to `Box[int32]`): underscores are appended until the name is free.
+    fn free_instance_name(&self, mut name: String) -> TastIdent {
+        loop {
+            let ident = TastIdent::new(&name);
+            if !self.enum_base.contains_key(&ident)
+                && !self.struct_base.contains_key(&ident)
+                && !self.map.values().any(|n| *n == ident)
+            {
+                return ident;
+            }
+            name.push('_');
+        }
+    }
+
     fn ensure_instance(&mut self, name: &str, args: &[Ty]) -> TastIdent {
         let key = (name.to_string(), args.to_vec());
         if let Some(u) = self.map.get(&key) {
@@ -874,7 +889,7 @@ impl<'a> TypeMono<'a> {
                 args.iter().map(ty_compact).collect::<Vec<_>>().join("__")
             )
         };
-        let new_name = TastIdent::new(&format!("{}{}", name, suffix));
+        let new_name = self.free_instance_name(format!("{}{}", name, suffix));
         self.map.insert(key.clone(), new_name.clone());
 
         let ident = TastIdent::new(name);
